@@ -24,7 +24,11 @@ def shroud_base(d):
         cv.add("volatile")
     if d.specifier and all(w in TYPE_WORDS for w in d.specifier):
         # what Shroud will emit for this base type
-        name = refdecl.canon_specifier(tm.cxx_type.split())
+        words = tm.cxx_type
+        if words.startswith("std::complex<") and words.endswith(">"):
+            # the typemap table pairs C99 'T complex' (c_type) with std::complex<T> (cxx_type): same meaning
+            words = words[len("std::complex<"):-1] + " complex"
+        name = refdecl.canon_specifier(words.split())
     else:
         name = tm.name
     targs = tuple(shroud_base(t) for t in d.template_arguments)
@@ -579,7 +583,7 @@ def run_check(pid, tier, seed, rep, extra_cov=None):
     """Explores, confirms, reports.  Returns coverage dict."""
     import time
     from lib import checklib
-    budget = 600 if tier == "quick" else 6000
+    budget = 600 if tier == "quick" else 12000
     t0 = time.time()
     jobs, accs, twin = explore_all(tier, budget)
     total = driver.Acc()
